@@ -37,6 +37,9 @@ fn main() {
     if args.extra.contains_key("child") {
         std::process::exit(child::main(&args));
     }
+    if args.extra.contains_key("inproc") {
+        std::process::exit(child::inproc(&args));
+    }
     let code = match args.prop.as_str() {
         "C12" => c12::run(&args, all_codecs()),
         "C13" => c13::run(&args, all_codecs()),
